@@ -97,7 +97,28 @@ def scan_eval(body, is_coll, is_elem_test, base_atom, vec):
                 vals = [beval(n.args[0].elt, lambda x, v=v: atom_p(x, {"var": g.target.id, "leaf": v})) for v in vec
                         if all(beval(c_, lambda x, v=v: atom_p(x, {"var": g.target.id, "leaf": v})) for c_ in g.ifs)]
                 return any(vals) if dotted(n.func) == "any" else all(vals)
+        if isinstance(n, ast.Call) and dotted(n.func) in ("any", "all") and len(n.args) == 1 and isinstance(n.args[0], ast.Call) and dotted(n.args[0].func) == "map" and len(n.args[0].args) == 2 \
+                and not n.args[0].keywords and is_coll(n.args[0].args[1]):
+            # any(map(<element>.matches, <collection>)) / any(map(lambda v: <test on v>, <collection>)): the comprehension written with map
+            fn_ = n.args[0].args[0]
+            if isinstance(fn_, ast.Lambda) and len(fn_.args.args) == 1 and not (fn_.args.vararg or fn_.args.kwarg or fn_.args.kwonlyargs or fn_.args.defaults):
+                var_, elt_ = fn_.args.args[0].arg, fn_.body
+            elif isinstance(fn_, ast.Attribute):
+                var_ = "v__map"
+                elt_ = ast.copy_location(ast.Call(func=fn_, args=[ast.Name(id=var_, ctx=ast.Load())], keywords=[]), fn_)
+            else:
+                return base_atom(n)
+            vals = [beval(elt_, lambda x, v=v: atom_p(x, {"var": var_, "leaf": v})) for v in vec]
+            return any(vals) if dotted(n.func) == "any" else all(vals)
         return base_atom(n)
+
+    def bound(b_, at):
+        """atoms read through the locals bound so far (a flag / a partial result assigned before it is returned or tested)"""
+        def at_(x):
+            if isinstance(x, ast.Name) and b_.get(x.id) is not None:
+                return beval(b_[x.id], at_)
+            return at(x)
+        return at_
 
     jump_b = {}
 
@@ -123,7 +144,7 @@ def scan_eval(body, is_coll, is_elem_test, base_atom, vec):
             for v in vec:
                 o_ = decide(s_.body, atom_p, {"var": s_.target.id, "leaf": v}, b_, on_stmt_p)
                 if o_.kind == "return" and o_.value is not None:
-                    o_.value = ast.Constant(value=beval(o_.value, lambda x, v=v: atom_p(x, {"var": s_.target.id, "leaf": v})))  # a result computed from the current element is fixed here
+                    o_.value = ast.Constant(value=beval(o_.value, bound(getattr(o_, "bindings", b_), lambda x, v=v: atom_p(x, {"var": s_.target.id, "leaf": v}))))  # a result computed from the current element is fixed here
                 if o_.kind in ("return", "raise"):
                     return o_
                 b_.update(jump_b.pop("b", {}) if o_.kind in ("break", "continue") else getattr(o_, "bindings", {}))
@@ -141,7 +162,7 @@ def scan_eval(body, is_coll, is_elem_test, base_atom, vec):
     o_ = decide(body, atom_p, {}, on_stmt=on_stmt_p)
     if o_.kind != "return" or o_.value is None:
         raise Unsupported(f"no boolean result ({o_.text()})")
-    return beval(o_.value, lambda x: atom_p(x, {}))
+    return beval(o_.value, bound(getattr(o_, "bindings", {}), lambda x: atom_p(x, {})))
 
 
 VECS = ([], [True], [False], [True, False], [False, True], [False, False], [True, True])
@@ -551,6 +572,12 @@ class _Interp:
                 return minieval.ev(e, {k: v for k, v in env.items() if not k.startswith("__")})
             except (TypeError, ValueError, AttributeError, KeyError, IndexError) as x:
                 raise minieval.CannotEval(f"{short(e, 50)}: {type(x).__name__}")
+        if isinstance(e, ast.Subscript) and isinstance(e.slice, ast.Slice):
+            seq = self.val(e.value, env)
+            parts = [None if p_ is None else self.val(p_, env) for p_ in (e.slice.lower, e.slice.upper, e.slice.step)]
+            if isinstance(seq, (list, tuple, str)) and all(p_ is None or (isinstance(p_, int) and not isinstance(p_, bool)) for p_ in parts) and parts[2] != 0:
+                return seq[slice(*parts)]
+            raise minieval.CannotEval(f"slice {short(e, 50)}")
         if isinstance(e, ast.Call):
             r = self.call(e, env)
             if r is not _NOHOOK:
@@ -860,6 +887,142 @@ class _Interp:
         return None if r[0] == "fallthrough" else r
 
 
+class _Elem(minieval.Record):
+    """a representative object of the track as a VALUE: a schedule element (kind 'leaf' / 'parallel') or a filter probe (kind 'filter'). `attrs`: every attribute name an instance
+    has (hasattr); `fields`: the attributes whose value is fixed (literals the constructor stores, the sub-tasks of a parallel element); `iter_field`: what iterating it yields."""
+
+    def __init__(self, kind, attrs=(), iter_field=None, **fields):
+        super().__init__(**fields)
+        self.kind, self.attrs, self.iter_field = kind, set(attrs) | set(fields), iter_field
+
+    def __repr__(self):
+        return f"<{self.kind}{self.fields.get('idx', '')}>"
+
+
+def element_model(trk, cname):
+    """(attribute names of an instance of track.<cname>, {attribute: literal} for the attributes its constructor always sets to that literal, the attribute `__iter__` iterates)"""
+    c = trk.cls(cname)
+    ms = trk.methods(c)
+    attrs, stores = set(ms) | {t.id for st in c.body if isinstance(st, ast.Assign) for t in st.targets if isinstance(t, ast.Name)}, {}
+    ini = ms.get("__init__")
+    for n in (walk_body(ini) if ini is not None else ()):
+        if isinstance(n, (ast.Assign, ast.AugAssign, ast.AnnAssign)):
+            for t in (n.targets if isinstance(n, ast.Assign) else [n.target]):
+                if is_self_attr(t):
+                    attrs.add(t.attr)
+                    stores.setdefault(t.attr, []).append(n.value if isinstance(n, ast.Assign) else None)
+    consts = {a: vs[0].value for a, vs in stores.items() if all(isinstance(v, ast.Constant) for v in vs) and len({repr(v.value) for v in vs}) == 1}
+    itf = None
+    im = ms.get("__iter__")
+    if im is not None:
+        ob_ = _own_body(im)
+        if len(ob_) == 1 and isinstance(ob_[0], ast.Return) and isinstance(ob_[0].value, ast.Call) and dotted(ob_[0].value.func) == "iter" and len(ob_[0].value.args) == 1 \
+                and is_self_attr(ob_[0].value.args[0]):
+            itf = ob_[0].value.args[0].attr
+    return attrs, consts, itf
+
+
+class _ElemInterp(_Interp):
+    """_Interp over representative schedule elements: iterating a parallel element yields its sub-tasks (Parallel.__iter__)"""
+
+    def iterable(self, v, node):
+        if isinstance(v, _Elem):
+            if v.iter_field is not None and isinstance(v.fields.get(v.iter_field), list):
+                return list(v.fields[v.iter_field])
+            raise minieval.CannotEval(f"iteration over {short(node, 40)} (a {v.kind})")
+        return super().iterable(v, node)
+
+
+ELEMENT_CLASSES = {"Parallel": "parallel", "Task": "leaf"}  # the two classes of schedule elements (track.py, "Schedule elements")
+
+
+def element_special(answer, methods=None):
+    """call hook for _Interp that answers the questions code asks about representative elements: `<element>.matches(<filter>)` (and, for a leaf, the filter's own
+    `<filter>.matches(<leaf>)` that Task.matches delegates to) through answer(element, filter) -> bool; isinstance(<element>, Parallel / Task / tuple of them), hasattr / getattr on
+    an element; map(<bound method or lambda>, <list>) and next(<generator>[, default]) evaluated eagerly on the values; any other method of the element's class is followed
+    (methods(element, name) -> (module, class, function) or None)."""
+    def ask(a, b):
+        if isinstance(a, _Elem) and isinstance(b, _Elem):
+            if a.kind in ("leaf", "parallel") and b.kind == "filter":
+                return bool(answer(a, b))
+            if a.kind == "filter" and b.kind == "leaf":
+                return bool(answer(b, a))
+            if a.kind == "filter" and b.kind == "parallel":
+                raise _CannotRun("a filter is asked about a parallel element directly (filters read the fields of a leaf)")
+        return None
+
+    def value(it, e, env):
+        try:
+            return it.val(e, env)
+        except minieval.CannotEval:
+            return _NOHOOK
+
+    def special(call, env, it):
+        d = dotted(call.func)
+        if any(isinstance(a, ast.Starred) for a in call.args) or any(k.arg is None for k in call.keywords):
+            return _NOHOOK
+        if d in ("isinstance", "hasattr", "getattr") and len(call.args) >= 2 and not call.keywords:
+            x = value(it, call.args[0], env)
+            if not (isinstance(x, _Elem) and x.kind in ("leaf", "parallel")):
+                return _NOHOOK
+            if d == "isinstance" and len(call.args) == 2:
+                kinds = []
+                for c_ in (call.args[1].elts if isinstance(call.args[1], ast.Tuple) else [call.args[1]]):
+                    cv = value(it, c_, env)
+                    if not (isinstance(cv, _Cls) and cv.name in ELEMENT_CLASSES):
+                        raise _CannotRun(f"`{short(call, 60)}`: not a test for one of the schedule element classes")
+                    kinds.append(ELEMENT_CLASSES[cv.name])
+                return x.kind in kinds
+            nm = value(it, call.args[1], env)
+            if not isinstance(nm, str):
+                raise _CannotRun(f"`{short(call, 60)}`: attribute name not evaluable")
+            if d == "hasattr" and len(call.args) == 2:
+                return nm in x.attrs
+            if d == "getattr" and len(call.args) in (2, 3):
+                if nm in x.fields:
+                    return x.fields[nm]
+                if nm in x.attrs:
+                    raise _CannotRun(f"`{short(call, 60)}`: the value of this attribute is not modelled")
+                if len(call.args) == 3:
+                    return it.val(call.args[2], env)
+                raise _Raised(f"AttributeError ({short(call, 50)})")
+            return _NOHOOK
+        if d == "map" and len(call.args) == 2 and not call.keywords:
+            fn_ = call.args[0]
+            seq = value(it, call.args[1], env)
+            if seq is _NOHOOK:
+                return _NOHOOK
+            items = it.iterable(seq, call.args[1])
+            if isinstance(fn_, ast.Lambda) and len(fn_.args.args) == 1 and not (fn_.args.vararg or fn_.args.kwarg or fn_.args.kwonlyargs or fn_.args.defaults or fn_.args.posonlyargs):
+                return [it.val(fn_.body, {**env, fn_.args.args[0].arg: x}) for x in items]
+            if isinstance(fn_, ast.Attribute) and fn_.attr == "matches":
+                recv = value(it, fn_.value, env)
+                out = [ask(recv, x) for x in items]
+                if all(o is not None for o in out):
+                    return out
+            return _NOHOOK
+        if d == "next" and 1 <= len(call.args) <= 2 and not call.keywords and isinstance(call.args[0], ast.GeneratorExp):
+            got = it.val(call.args[0], env)  # evaluated eagerly: the expressions read here have no effects
+            if got:
+                return got[0]
+            if len(call.args) == 2:
+                return it.val(call.args[1], env)
+            raise _Raised(f"StopIteration ({short(call, 50)})")
+        if isinstance(call.func, ast.Attribute) and call.func.attr == "matches" and len(call.args) == 1 and not call.keywords:
+            r = ask(value(it, call.func.value, env), value(it, call.args[0], env))
+            if r is not None:
+                return r
+        if methods is not None and isinstance(call.func, ast.Attribute) and call.func.attr != "matches":
+            recv = value(it, call.func.value, env)
+            m_ = methods(recv, call.func.attr) if isinstance(recv, _Elem) and recv.kind in ("leaf", "parallel") else None
+            if m_ is not None and m_[2] is not None:
+                argv = {p_: it.val(a_, env) for p_, a_ in source.bind_args(call, m_[2]).items()}
+                return it.invoke(m_[2], None, it.frame(m_[0], m_[1], recv), True, argv=argv)
+        return _NOHOOK
+
+    return special
+
+
 def run(chk):
     repo = chk.repo
     ldr, trk, drv = repo.module(_L), repo.module(_T), repo.module(_D)
@@ -907,7 +1070,7 @@ def run(chk):
     # nor removes anything (those are the drivers of the filtering, not the predicate); the outermost one if helpers were extracted from it
     def asks_matches(m):
         ps = [p_ for p_ in params_of(m) if p_ not in ("self", "cls")]
-        return any(isinstance(c, ast.Call) and isinstance(c.func, ast.Attribute) and c.func.attr == "matches" and isinstance(c.func.value, ast.Name) and c.func.value.id in ps for c in ast.walk(m))
+        return any(isinstance(c, ast.Attribute) and c.attr == "matches" and isinstance(c.value, ast.Name) and c.value.id in ps for c in ast.walk(m))  # called, or handed to map() as a bound method
 
     def drives(m):
         return any((isinstance(x, ast.Call) and last_attr(x.func) in ("remove_task", "remove")) or (isinstance(x, ast.Attribute) and x.attr in ("schedule", "challenges")) for x in ast.walk(m))
@@ -920,23 +1083,6 @@ def run(chk):
     fo_slice = pclosure(fo)
     foX = inline_helpers(fo, lambda c: (lambda h: h if h is not None and h is not fo and h is not oa and h is not init else None)(helper_of(c)), parent=P)[0]
     tp = params_of(fo)[1]
-    # the FILTERS attribute: the self attribute whose elements are handed to <element>.matches(...); the MODE attribute: the other self attribute the match routine reads
-    fattr = None
-    for g in [foX] + fo_slice[1:]:
-        for c in ast.walk(g):
-            if isinstance(c, ast.Call) and isinstance(c.func, ast.Attribute) and c.func.attr == "matches" and len(c.args) == 1 and isinstance(c.args[0], ast.Name):
-                for n in ast.walk(g):
-                    if isinstance(n, (ast.For, ast.comprehension)) and isinstance(n.target, ast.Name) and n.target.id == c.args[0].id and is_self_attr(strip_sel(n.iter)):
-                        fattr = fattr or strip_sel(n.iter).attr
-    if fattr is None:
-        raise AnchorMissing("the attribute holding the filters (iterated by the match routine, elements handed to <element>.matches)")
-    reads = {n.attr for g in [foX] + fo_slice[1:] for n in ast.walk(g) if is_self_attr(n) and isinstance(n.ctx, ast.Load) and "logger" not in n.attr.lower()
-             and not (isinstance(source.parent(n), ast.Call) and source.parent(n).func is n)} - {fattr}
-    mattr = next(iter(reads)) if len(reads) == 1 else ("exclude" if "exclude" in reads else None)
-    if mattr is None:
-        raise AnchorMissing(f"the attribute holding the include / exclude mode (the match routine reads {sorted(reads)})")
-    ff = pm.get("_filters_from_filtered_tasks") or next((h for c in walk_body(init) if isinstance(c, ast.Call) for h in [helper_of(c)] if h is not None), None) or init
-
     # ---- the constructor INTERPRETED on the two option values: which filters are built, which mode is set ------------------------------------------------------
     OPTS = ("include.tasks", "exclude.tasks")
 
@@ -964,6 +1110,42 @@ def run(chk):
         kind, v = it.run(init.body, it.frame(ldr, P, me))
         return kind, v, me.fields
 
+    states, run_err = {}, None
+    try:
+        for k_ in itertools.product([True, False], repeat=2):
+            states[k_] = init_state(["i"] if k_[0] else None, ["e"] if k_[1] else None)
+    except (_CannotRun, minieval.CannotEval) as e:
+        run_err = str(e)
+
+    # the FILTERS attribute: the self attribute whose elements are handed to <element>.matches(...); the MODE attribute: the other self attribute the match routine reads
+    fattr = None
+    for g in [foX] + fo_slice[1:]:
+        for c in ast.walk(g):
+            if isinstance(c, ast.Call) and isinstance(c.func, ast.Attribute) and c.func.attr == "matches" and len(c.args) == 1 and isinstance(c.args[0], ast.Name):
+                for n in ast.walk(g):
+                    if isinstance(n, (ast.For, ast.comprehension)) and isinstance(n.target, ast.Name) and n.target.id == c.args[0].id and is_self_attr(strip_sel(n.iter)):
+                        fattr = fattr or strip_sel(n.iter).attr
+            if isinstance(c, ast.Call) and dotted(c.func) == "map" and len(c.args) == 2 and isinstance(c.args[0], ast.Attribute) and c.args[0].attr == "matches" and is_self_attr(strip_sel(c.args[1])):
+                fattr = fattr or strip_sel(c.args[1]).attr  # map(<element>.matches, self.<filters>)
+    all_reads = {n.attr for g in [foX] + fo_slice[1:] for n in ast.walk(g) if is_self_attr(n) and isinstance(n.ctx, ast.Load) and "logger" not in n.attr.lower()
+                 and not (isinstance(source.parent(n), ast.Call) and source.parent(n).func is n)}
+    inc_fields, exc_fields = (states[k_][2] if k_ in states and states[k_][0] != "raise" else {} for k_ in ((True, False), (False, True)))
+    if fattr is None:
+        # by VALUE: the attribute in which the constructor leaves the filter objects it built from the option list (and which the match routine reads)
+        holds = [a for a in sorted(all_reads) if all(isinstance(fs_.get(a), (list, tuple)) and fs_.get(a) and all(isinstance(x, _Inst) for x in fs_[a]) for fs_ in (inc_fields, exc_fields))]
+        fattr = holds[0] if len(holds) == 1 else None
+    if fattr is None:
+        raise AnchorMissing("the attribute holding the filters (iterated by the match routine, elements handed to <element>.matches)")
+    reads = all_reads - {fattr}
+    mattr = next(iter(reads)) if len(reads) == 1 else ("exclude" if "exclude" in reads else None)
+    if mattr is None:
+        # by VALUE: the attribute read by the match routine whose truth differs between `only the include list given` and `only the exclude list given`
+        differs = [a for a in sorted(reads) if a in inc_fields and a in exc_fields and bool(inc_fields[a]) != bool(exc_fields[a])]
+        mattr = differs[0] if len(differs) == 1 else None
+    if mattr is None:
+        raise AnchorMissing(f"the attribute holding the include / exclude mode (the match routine reads {sorted(reads)})")
+    ff = pm.get("_filters_from_filtered_tasks") or next((h for c in walk_body(init) if isinstance(c, ast.Call) for h in [helper_of(c)] if h is not None), None) or init
+
     def built(fields):
         """the filters as [(class name, constructor argument)]"""
         fl = fields.get(fattr, _NOHOOK)
@@ -978,12 +1160,6 @@ def run(chk):
             return out
         raise _CannotRun(f"self.{fattr} is {fl!r}")
 
-    states, run_err = {}, None
-    try:
-        for k_ in itertools.product([True, False], repeat=2):
-            states[k_] = init_state(["i"] if k_[0] else None, ["e"] if k_[1] else None)
-    except (_CannotRun, minieval.CannotEval) as e:
-        run_err = str(e)
     MISSING = object()
     modeval = {k_: st[2].get(mattr, MISSING) for k_, st in states.items()}
     a_inc, b_exc = modeval.get((True, False), MISSING), modeval.get((False, True), MISSING)
@@ -1020,12 +1196,114 @@ def run(chk):
                          lambda n, var: isinstance(n, ast.Call) and isinstance(n.func, ast.Attribute) and n.func.attr == "matches" and u(n.func.value) == tpn and len(n.args) == 1 and u(n.args[0]) == var,
                          base, vec)
 
+    # representative schedule elements: which attributes a leaf / a parallel element has and which of them the constructors fix (Task.__init__ / Parallel.__init__ in track.py)
+    def representative(kind, **extra):
+        cname = next(c_ for c_, k_ in ELEMENT_CLASSES.items() if k_ == kind)
+        attrs, consts, itf = element_model(trk, cname)
+        return _Elem(kind, attrs, itf, **consts, **extra)
+
+    def parallel_with(n_leaves):
+        par = representative("parallel")
+        if not ("tasks" in par.attrs or par.iter_field):
+            raise _CannotRun("Parallel keeps its sub-tasks in an attribute that is not recognised")
+        par.fields[par.iter_field or "tasks"] = [representative("leaf") for _ in range(n_leaves)]
+        return par
+
+    def elem_methods(e_, nm):
+        cname = next(c_ for c_, k_ in ELEMENT_CLASSES.items() if k_ == e_.kind)
+        return trk, trk.cls(cname), trk.methods(trk.cls(cname)).get(nm)
+
+    def mentions_match(e):
+        return any(isinstance(x, ast.Call) and helper_of(x) is not None and any(helper_of(x) is g for g in fo_slice) for x in ast.walk(e))
+
+    def truth_on(test, binds, me=None):
+        """truth of an extracted condition with some names bound to representative values (None if it is not evaluable on them)"""
+        def no_answer(e_, f_):
+            raise _CannotRun("the condition asks the filters")
+
+        it = _ElemInterp(repo, element_special(no_answer, elem_methods))
+        fr = it.frame(ldr, P, me if me is not None else minieval.Record())
+        fr.update(binds)
+        try:
+            return bool(it.val(test, fr))
+        except (minieval.CannotEval, _CannotRun, _Raised):
+            return None
+
+    _kinds = {}
+
+    def elem_test_kind(a, obj, defs=None):
+        """what an atomic condition says about the schedule element `obj`: 'empty' / 'nonempty' (true exactly for a parallel element without / with sub-tasks), 'parallel' / 'leaf'
+        (true exactly for that class of element), None otherwise. Read from the spelling where it is one of the usual ones, otherwise decided on VALUES: the condition - locals in
+        `defs` replaced by their definitions - is evaluated for a parallel element with 0 / 1 / 2 sub-tasks and for a leaf."""
+        k = emptiness_test(a, obj)
+        if k:
+            return k
+        neg = isinstance(a, ast.UnaryOp) and isinstance(a.op, ast.Not)
+        if _pat.is_(a.operand if neg else a, *(p_.format(obj) for p_ in PARALLEL_TESTS)):
+            return "leaf" if neg else "parallel"
+        a2 = source.inline_node(a, defs) if defs else a
+        key = (u(a2), obj)
+        if key in _kinds:
+            return _kinds[key]
+        res = None
+        if obj.isidentifier() and any(isinstance(x, ast.Name) and x.id == obj for x in ast.walk(a2)) and not mentions_match(a2):
+            try:
+                on_par = [truth_on(a2, {obj: parallel_with(n_)}) for n_ in (0, 1, 2)]
+                on_leaf = truth_on(a2, {obj: representative("leaf")})
+            except _CannotRun:
+                on_par, on_leaf = [None], None
+            if on_par == [True, False, False]:
+                res = "empty"
+            elif on_par == [False, True, True]:
+                res = "nonempty"
+            elif on_par == [True, True, True] and on_leaf is False:
+                res = "parallel"
+            elif on_par == [False, False, False] and on_leaf is True:
+                res = "leaf"
+        _kinds[key] = res
+        return res
+
+    def match_run(env, vec):
+        """the truth of what the match routine RETURNS, interpreted on values (helpers of the processor followed): self as the constructor leaves it for this mode with one probe
+        filter per entry of vec in the filters attribute, the element a representative leaf / parallel element whose `.matches(<probe i>)` answers vec[i]"""
+        probes = [_Elem("filter", idx=i) for i in range(len(vec))]
+        if env["parallel"]:
+            par = representative("parallel")
+            if "tasks" in par.attrs or par.iter_field:
+                par.fields[par.iter_field or "tasks"] = [representative("leaf")]  # its only leaf: matched by exactly the filters the element is matched by
+            elem = par
+        else:
+            elem = representative("leaf")
+        it = _ElemInterp(repo, element_special(lambda e_, f_: vec[f_.fields["idx"]]))
+        me = minieval.Record(**it.class_consts(ldr, P))
+        st = states.get((not env["exclude"], env["exclude"]))  # only the include list / only the exclude list given
+        if run_err is None and st is not None and st[0] != "raise" and mattr in st[2]:
+            me.fields.update({k_: v_ for k_, v_ in st[2].items() if not isinstance(v_, (list, dict, set))})
+            me.fields[mattr] = st[2][mattr]  # the VALUE the constructor stores (a comparison `matched == self.<mode>` depends on more than its truth)
+        elif mode_truth is not None:
+            me.fields[mattr] = mode_truth[env["exclude"]]
+        else:
+            raise _CannotRun(f"the meaning of self.{mattr} could not be derived from the constructor")
+        me.fields[fattr] = tuple(probes) if st is not None and isinstance(st[2].get(fattr), tuple) else probes
+        return bool(it.invoke(fo, None, it.frame(ldr, P, me), True, argv={tp: elem}))
+
+    def match_decide(env, vec):
+        try:
+            return match_run(env, vec)
+        except _Raised as e:
+            raise Unsupported(f"the routine raises {e.text} for per-filter results {vec}")
+        except (_CannotRun, minieval.CannotEval) as e1:
+            try:
+                return match_eval(foX, tp, env, vec)  # read as a scan over the filters with symbolic atoms instead
+            except (Unsupported, UnknownAtom) as e2:
+                raise Unsupported(f"not interpretable on representative values ({e1}) and not read as a scan over the filters either ({e2})")
+
     for exclude, parallel, match in itertools.product([False, True], repeat=3):
         env = {"exclude": exclude, "parallel": parallel, "match": match}
         inst = f"{'exclude' if exclude else 'include'}, {'parallel' if parallel else 'leaf'}, {'some filter matches' if match else 'no filter matches'}"
         want = ((not exclude) and (not match)) if parallel else (match == exclude)
         try:
-            got_v = [(vec, match_eval(foX, tp, env, vec)) for vec in VECS if any(vec) == match]  # every vector of per-filter results with this `some filter matches`
+            got_v = [(vec, match_decide(env, vec)) for vec in VECS if any(vec) == match]  # every vector of per-filter results with this `some filter matches`
         except (Unsupported, UnknownAtom) as e:
             chk.unknown("O11.1", f"{fo.name} is not a decision over (exclude, parallel, per-filter match results): {e}", fo)
             continue
@@ -1145,8 +1423,26 @@ def run(chk):
     def leaf_call(n, var):
         return isinstance(n, ast.Call) and last_attr(n.func) == "matches" and isinstance(n.func.value, ast.Name) and n.func.value.id == var and len(n.args) == 1 and u(n.args[0]) == fparam
 
+    def parallel_matches(lv):
+        """truth of Parallel.matches(<filter>) for leaves whose own matches(<filter>) answer lv: interpreted on values; read as a scan over the leaves otherwise"""
+        try:
+            leaves = [representative("leaf", idx=i) for i in range(len(lv))]
+            me = representative("parallel")
+            if not ("tasks" in me.attrs or me.iter_field):
+                raise _CannotRun("Parallel keeps its sub-tasks in an attribute that is not recognised")
+            me.fields[me.iter_field or "tasks"] = leaves
+            it = _ElemInterp(repo, element_special(lambda e_, f_: lv[e_.fields["idx"]]))
+            return bool(it.invoke(pmt, None, it.frame(trk, PA, me), True, argv={fparam: _Elem("filter")}))
+        except _Raised as e:
+            raise Unsupported(f"raises {e.text} for leaf match results {lv}")
+        except (_CannotRun, minieval.CannotEval) as e1:
+            try:
+                return scan_eval(pmt.body, lambda e: is_self_attr(strip_sel(e), "tasks") or u(strip_sel(e)) == "self", leaf_call, lambda n: None, lv)
+            except (Unsupported, UnknownAtom) as e2:
+                raise Unsupported(f"not interpretable on representative leaves ({e1}) and not read as a scan over the leaves either ({e2})")
+
     try:
-        wrong = [lv for lv in VECS if scan_eval(pmt.body, lambda e: is_self_attr(strip_sel(e), "tasks") or u(strip_sel(e)) == "self", leaf_call, lambda n: None, lv) != any(lv)]
+        wrong = [lv for lv in VECS if parallel_matches(lv) != any(lv)]
         chk.ob("O11.1", "a parallel element matches iff some leaf matches", not wrong, pmt, "" if not wrong else f"wrong result for leaf match results {wrong[0]}: {not any(wrong[0])}")
     except (Unsupported, UnknownAtom) as e:
         chk.unknown("O11.1", f"Parallel.matches is not a decision over the leaf match results: {e}", pmt)
@@ -1290,25 +1586,45 @@ def run(chk):
         # an emptiness test is an `if` one of whose ARMS (true arm: the test; false arm: its negation) is entered WHENEVER the element is an emptied parallel element - some disjunct
         # of the arm's condition consists of nothing but emptiness tests / parallel tests of the element -, and that arm removes the element -- whichever arm it is and however
         # the test is written (also as one alternative of `<removed by the filters> or <emptied>`)
-        tests, arms = [], {}
+        cn = gfn.node_of(c)
+        head = gfn.node_of(OL)
+        # locals that are computed AFTER the shrink (single assignment inside the loop, the shrink site not reachable from it within the same iteration): a test on such a local
+        # is a test on the element as the shrink left it (`remaining = len(task.tasks)` / `emptied = isinstance(..) and not task.tasks`); a local computed before is stale
+        all_defs = local_defs(fn)
+        fresh_defs = {}
+        for nm_, val_ in all_defs.items():
+            st_ = source.enclosing_stmt(val_)
+            if isinstance(st_, ast.Assign) and any(a_ is OL for a_ in source.ancestors(st_)):
+                sn_ = gfn.node_of(st_)
+                if sn_ is not None and cn.id not in gfn.reachable([gfn.nodes[y] for y, lab in gfn.succ[sn_.id]], avoid=[head]):
+                    fresh_defs[nm_] = val_
+        tests, arms, strange = [], {}, []
         for n in ast.walk(OL):
             if isinstance(n, ast.If):
                 for arm, cond in ((n.body, n.test), (n.orelse, negate(n.test))):
+                    if not (arm and removing(arm)):
+                        continue
                     hit = False
                     for fs in (dnf(cond) or []):
-                        kinds = [emptiness_test(a, obj) for a in fs]
-                        hit = hit or ("empty" in kinds and all(k == "empty" or _pat.is_(a, *parallel_tests) for a, k in zip(fs, kinds)))
-                    if arm and hit and removing(arm):
+                        kinds = [elem_test_kind(a, obj, fresh_defs) for a in fs]
+                        hit = hit or ("empty" in kinds and all(k in ("empty", "parallel") for k in kinds))
+                        # a condition on the element itself (not on what the filters say) that is neither an emptiness nor a class test: possibly an emptiness test in a
+                        # spelling that is not read - the verdict below is then `not recognised`, not `no test`
+                        strange += [a for a, k in zip(fs, kinds) if k is None and not mentions_match(source.inline_node(a, all_defs))
+                                    and any(isinstance(x, ast.Name) and x.id == obj for x in ast.walk(source.inline_node(a, all_defs)))]
+                    if hit:
                         tests.append(n)
                         arms[id(n)] = arm
                         break
-        cn = gfn.node_of(c)
-        head = gfn.node_of(OL)
         tn = [gfn.node_of(t) for t in tests]
         # every path from the shrink to the next outer iteration passes the emptiness test
         ok = bool(tn) and head.id not in gfn.reachable([gfn.nodes[y] for y, lab in gfn.succ[cn.id] if gfn.normal_edge(cn.id, y, lab)], avoid=tn, edge_ok=gfn.normal_edge)
         if not tests and any(fs_[1] == "schedule" and source.enclosing_func(n) is fn for n, fs_ in fstores):
             chk.unknown("O11.2", f"{source.qualname(c)}: the schedule is rebuilt by a filtering comprehension - whether it drops the emptied `{obj}` is not read from this shape", c)
+            continue
+        if not ok and strange:
+            chk.unknown("O11.2", f"{source.qualname(c)}: `{obj}` is removed under the condition `{short(strange[0], 60)}`, which is not recognised as a test for an emptied parallel element "
+                        "(nor as anything else)", strange[0])
             continue
         chk.ob("O11.2", f"{source.qualname(c)}: emptiness test after shrinking {obj}", ok, c,
                f"{len(tests)} emptiness test(s) with a removing empty-edge" + ("" if ok else "; a path keeps a possibly emptied parallel element in the schedule"),
@@ -1329,8 +1645,15 @@ def run(chk):
                     for x in ast.walk(n if isinstance(n, ast.For) else source.parent(n)))]
                 escapes = [x for x in ast.walk(fn) if isinstance(x, ast.Call) and not is_logging_call(x) and last_attr(x.func) not in ("len", "append") and any(u(a_) in names_ for a_ in list(x.args) + [k.value for k in x.keywords])]
                 escapes += [x for x in ast.walk(fn) if isinstance(x, ast.Return) and x.value is not None and u(x.value) in names_]
+                # any other read of the list (a membership test in a comprehension that rebuilds the schedule, ...) is a use this rule does not follow
+                other_use = [x for x in ast.walk(fn) if isinstance(x, ast.Name) and x.id in names_ and isinstance(x.ctx, ast.Load) and not is_logging_stmt(source.enclosing_stmt(x))
+                             and not (isinstance(source.parent(x), ast.Attribute) and source.parent(x).attr == "append")
+                             and not (isinstance(source.parent(x), ast.Call) and dotted(source.parent(x).func) == "len")
+                             and not (isinstance(source.parent(x), ast.Assign) and source.parent(x).value is x)]
                 if not rm and escapes:
                     chk.unknown("O11.2", f"the collected elements `{lst}` are handed to {short(escapes[0], 50)}: their removal from the challenge is not visible here", escapes[0])
+                elif not rm and other_use:
+                    chk.unknown("O11.2", f"the collected elements `{lst}` are used in `{short(source.enclosing_stmt(other_use[0]), 60)}`: their removal from the challenge is not read from this shape", other_use[0])
                 else:
                     chk.ob("O11.2", "collected elements are removed from the challenge", bool(rm), coll[0], "" if rm else f"`{lst}` is filled but never used to remove its elements from the challenge")
     try:
@@ -1477,8 +1800,23 @@ def run(chk):
                               (f"only a selection of the challenges is filtered: {short(part[0].iter, 40)}" if part else f"{len(chl)} loops over the challenges")),
                key=f"{_L}:TaskFilterTrackProcessor.on_after_load_track:all-challenges")
     early = [n for n in walk_body(oaX) if isinstance(n, ast.Return) and guards(n)]
-    ok = all(any(emptiness_test(f_, f"self.{fattr}") == "empty" for f_ in _pat.fact_nodes(n)) for n in early)
-    chk.ob("O11.3", "early return only without filters", ok, early[0] if early else oa, "")
+
+    def filters_test_kind(f_):
+        """'empty' / 'nonempty': the condition holds exactly when the processor has no / some filters (read from the spelling, otherwise evaluated on 0 / 1 / 2 filters); else None"""
+        k = emptiness_test(f_, f"self.{fattr}")
+        if k or not any(is_self_attr(x, fattr) for x in ast.walk(f_)) or mentions_match(f_):
+            return k
+        got = [truth_on(f_, {}, minieval.Record(**{fattr: [_Elem("filter", idx=i) for i in range(n_)]})) for n_ in (0, 1, 2)]
+        return {(True, False, False): "empty", (False, True, True): "nonempty"}.get(tuple(got))
+
+    # an early return is harmless when it is taken only without filters; it is WRONG when it is taken because there are filters; under any other condition (an empty track, a
+    # feature switch) it is not decided here
+    wrong_early = [n for n in early if any(filters_test_kind(f_) == "nonempty" for f_ in _pat.fact_nodes(n)) and not any(filters_test_kind(f_) == "empty" for f_ in _pat.fact_nodes(n))]
+    open_early = [n for n in early if not any(filters_test_kind(f_) in ("empty", "nonempty") for f_ in _pat.fact_nodes(n))]
+    for n in open_early:
+        chk.unknown("O11.3", f"the hook returns early under `{' and '.join(u(f_) for f_ in _pat.fact_nodes(n))[:80]}`: whether filtering is skipped although there are filters is not decided", n)
+    chk.ob("O11.3", "early return only without filters", not wrong_early, wrong_early[0] if wrong_early else (early[0] if early else oa),
+           "" if not wrong_early else "the hook returns before filtering although there are filters")
 
     # the ONLY reason to remove an element is the match routine: the statements that queue an element for removal are written under exactly one explicit condition, the call of
     # the match routine on that very element (the emptied-parallel clean-up, keyed by the emptiness test, is decided by O11.2). A queue is an `<list>.append(<v>)` in a loop over
@@ -1525,9 +1863,10 @@ def run(chk):
         for f_ in _pat.fact_nodes(node, stop=tl, path_sensitive=True):
             neg = isinstance(f_, ast.UnaryOp) and isinstance(f_.op, ast.Not)
             core = f_.operand if neg else f_
-            if (neg and is_match_call(core, ev_)) or (not neg and _pat.is_(core, *(p_.format(ev_) for p_ in PARALLEL_TESTS))) or emptiness_test(f_, ev_) == "nonempty":
+            kind_ = None if mentions_match(f_) else elem_test_kind(f_, ev_, local_defs(oaX))
+            if (neg and is_match_call(core, ev_)) or kind_ in ("parallel", "nonempty"):
                 continue
-            if (not neg and is_match_call(core, ev_)) or (neg and _pat.is_(core, *(p_.format(ev_) for p_ in PARALLEL_TESTS))):
+            if (not neg and is_match_call(core, ev_)) or kind_ == "leaf":
                 chk.ob("O11.3", f"the leaves of every kept parallel element `{ev_}` are filtered", False, node,
                        f"the leaf queue is only reached under `{u(f_)}`: parallel elements that stay keep leaves the filters select for removal",
                        key=f"{_L}:TaskFilterTrackProcessor.on_after_load_track:leaf-queue-guard")
@@ -1556,8 +1895,16 @@ def run(chk):
                 chk.unknown("O11.3", f"the condition under which `{lv}` is queued for removal is too large to be split into alternatives", site)
                 continue
             # each alternative of the condition is either the emptiness clean-up (decided by O11.2) or the match routine on that very element and nothing else
-            alts = [a for a in alts if not (any(emptiness_test(f_, lv) == "empty" for f_ in a) and not any(is_match_call(f_, lv) for f_ in a))]
+            oa_defs = local_defs(oaX)
+            alts = [a for a in alts if not (any(elem_test_kind(f_, lv, oa_defs) == "empty" for f_ in a) and not any(is_match_call(f_, lv) for f_ in a))]
             if not alts:
+                continue
+            # an alternative that does not ask the match routine at all and tests the element itself in a spelling that is not read may be the emptiness clean-up: not recognised
+            unread = [f_ for a in alts if not any(is_match_call(f_, lv) for f_ in a) for f_ in a
+                      if not mentions_match(source.inline_node(f_, oa_defs)) and elem_test_kind(f_, lv, oa_defs) is None
+                      and any(isinstance(x, ast.Name) and x.id == lv for x in ast.walk(source.inline_node(f_, oa_defs)))]
+            if unread:
+                chk.unknown("O11.3", f"`{lv}` is queued for removal under the condition `{short(unread[0], 60)}`, which is neither the match routine nor a recognised test for an emptied parallel element", site)
                 continue
             hidden = [x for a in alts for f_ in a for x in ast.walk(f_) if isinstance(x, ast.Call) and helper_of(x) is not None and helper_of(x) is not fo]
             if hidden:
